@@ -958,6 +958,20 @@ func finishCaptures(t *rapid.T, s *Scenario, groups [][]*Packet) {
 		order = rapid.Permutation(order).Draw(t, "name order")
 	}
 	for ci := 0; ci < ncap; ci++ {
+		// a capture file need not list its packets in timestamp order (several queues of one sensor): now and then the
+		// first or the last two packets of a file swap places (only packets of different conversations)
+		if g := groups[ci]; len(g) >= 3 && percent(t, "unordered capture", 12) {
+			i := 0
+			if rapid.Bool().Draw(t, "unordered tail") {
+				i = len(g) - 2
+			}
+			if g[i].Conv != g[i+1].Conv && g[i].TimeUS != g[i+1].TimeUS {
+				g = append([]*Packet{}, g...)
+				g[i], g[i+1] = g[i+1], g[i]
+				groups[ci] = g
+				s.Unordered++
+			}
+		}
 		cp := &Capture{Packets: groups[ci]}
 		all4, all6 := true, true
 		for i, p := range cp.Packets {
